@@ -290,6 +290,12 @@ def run_unit(name, tier="quick", use_cache=True, canary=True, repo=None):
                 if mfn.group(1) not in lst:
                     lst.append(mfn.group(1))
                     changed = True
+            elif re.match(r"cannot find value `([A-Z][A-Z0-9_]*)` in this scope", msg) and rec.get("file"):
+                cn = "const:" + re.match(r"cannot find value `([A-Z][A-Z0-9_]*)`", msg).group(1)
+                lst = auto_extra.setdefault(rec["file"], [])
+                if cn not in lst:
+                    lst.append(cn)
+                    changed = True
             elif d.get("code") and str(d["code"]).startswith("E0") and rec.get("clause") and fnn:
                 cl = rec["clause"]
                 piece = None
